@@ -28,6 +28,7 @@ def run(ctx):
     ctx.each(r12h, ctx, repo)
     from . import c16
 
+    ctx.each(c16.cache_refresh_rule, ctx, repo, "R12i")
     ctx.each(c16.r16a, ctx, repo, K.types(repo))  # the weighted average is computed from a cache of deltas: it must follow every edit of baseline / outcomes
 
 
